@@ -119,6 +119,11 @@ class SeqRunner:
             req['dir'] = p['dir']
         if p.get('key') is not None:
             req['key'] = p['key']
+        if req['via'] != 'builder' and p.get('dir') is not None:
+            # the constructors without a builder take the data directory from the environment, as distributed-walrus/src/bucket.rs does:
+            # set_var("WALRUS_DATA_DIR", dir) right before the constructor call
+            self.call({'op': 'setenv', 'k': 'WALRUS_DATA_DIR', 'v': p['dir']})
+            self.stat('opens_via_env')
         r = self.call(req)
         self.transcript.append(('open', 'ok' if r.get('ok') else ('panic' if 'panic' in r else 'err:' + str(r.get('err')))))
         if r.get('ok'):
